@@ -56,13 +56,16 @@ struct World {
     items: V<S>,
     obs0: S,
     dead: bool,   // the constructor trapped: the trace is one impossible initial observation
+    admin0: usize,
 }
 
 struct Snap { admin: Option<usize>, pending: Option<(usize, u32)>, role_admin: V<Option<usize>>, count: V<u32>, has: V<V<Option<u32>>>, members: V<V<Option<usize>>>, tokens: V<Option<usize>>, approved: V<Option<usize>> }
 
 impl World {
     fn new(naddr: usize, role_names: &[S], ntok: u32, start: u32, max_ttl: u32) -> World { World::new_cfg(naddr, role_names, ntok, start, 1, max_ttl, std::cmp::min(max_ttl, 4096)) }
-    fn new_cfg(naddr: usize, role_names: &[S], ntok: u32, start: u32, min_ttl: u32, max_ttl: u32, min_persist: u32) -> World {
+    fn new_cfg(naddr: usize, role_names: &[S], ntok: u32, start: u32, min_ttl: u32, max_ttl: u32, min_persist: u32) -> World { World::new_adm(naddr, role_names, ntok, start, min_ttl, max_ttl, min_persist, 0) }
+    /// admin0: the account handed to the constructor as admin
+    fn new_adm(naddr: usize, role_names: &[S], ntok: u32, start: u32, min_ttl: u32, max_ttl: u32, min_persist: u32, admin0: usize) -> World {
         let e = Env::default();
         e.cost_estimate().budget().reset_unlimited();
         e.cost_estimate().disable_resource_limits();
@@ -76,11 +79,11 @@ impl World {
         let roles: V<Symbol> = role_names.iter().map(|s| Symbol::new(&e, s)).collect();
         let reg = std::panic::catch_unwind(std::panic::AssertUnwindSafe(|| e.register(
             ac_ex::ExampleContract,
-            (String::from_str(&e, "u"), String::from_str(&e, "n"), String::from_str(&e, "s"), addrs[0].clone()),
+            (String::from_str(&e, "u"), String::from_str(&e, "n"), String::from_str(&e, "s"), addrs[admin0].clone()),
         )));
         match reg {
             Ok(cid) => {
-                let mut w = World { e, cid, addrs, roles, ntok, now: start, start, min_ttl, max_ttl, items: vec![], obs0: S::new(), dead: false };
+                let mut w = World { e, cid, addrs, roles, ntok, now: start, start, min_ttl, max_ttl, items: vec![], obs0: S::new(), dead: false, admin0 };
                 w.obs0 = w.obs();
                 w
             }
@@ -89,7 +92,7 @@ impl World {
                 let addrs: V<Address> = (0..naddr).map(|_| Address::generate(&e)).collect();
                 let roles: V<Symbol> = role_names.iter().map(|s| Symbol::new(&e, s)).collect();
                 World { e, cid, addrs, roles, ntok, now: start, start, min_ttl, max_ttl, items: vec![],
-                        obs0: "(Build_aobs (Some 998%N) None [] [998%N] [] [])".to_string(), dead: true }
+                        obs0: "(Build_aobs (Some 998%N) None [] [998%N] [] [])".to_string(), dead: true, admin0 }
             }
         }
     }
@@ -97,7 +100,7 @@ impl World {
     fn idx(&self, a: &Address) -> usize { self.addrs.iter().position(|x| x == a).unwrap_or(999) }
     fn ridx(&self, s: &Symbol) -> usize { self.roles.iter().position(|x| x == s).unwrap_or(999) }
     fn header(&self) -> S {
-        format!("(Build_aheader {} {} {} (Some {}) {} {} {} (Build_universe {} {} {}))", self.min_ttl, self.max_ttl, self.start, n(0), n(MAX_ROLES as u64), n(0), n(1),
+        format!("(Build_aheader {} {} {} (Some {}) {} {} {} (Build_universe {} {} {}))", self.min_ttl, self.max_ttl, self.start, n(self.admin0 as u64), n(MAX_ROLES as u64), n(0), n(1),
                 list(&(0..self.addrs.len()).map(|i| n(i as u64)).collect::<V<_>>()),
                 list(&(0..self.roles.len()).map(|i| n(i as u64)).collect::<V<_>>()),
                 list(&(0..self.ntok).map(|i| n(i as u64)).collect::<V<_>>()))
@@ -230,12 +233,17 @@ impl World {
 /// authorisation subset for a call whose needed signer is `p`
 fn pick_auths(rng: &mut Rng, p: usize, alt: Option<usize>, naddr: usize) -> V<usize> {
     let other = rng.below(naddr as u64) as usize;
+    let other2 = rng.below(naddr as u64) as usize;
     match rng.below(100) {
-        0..=69 => vec![p],
-        70..=75 => { if other != p { vec![p, other] } else { vec![p] } }
-        76..=79 => { if other != p { vec![other, p] } else { vec![p] } }
-        80..=86 => vec![],
-        87..=93 => match alt { Some(x) if x != p => vec![x], _ => if other != p { vec![other] } else { vec![] } },
+        0..=64 => vec![p],
+        65..=69 => vec![p, other],
+        70..=73 => vec![other, p],
+        74..=76 => vec![other, other2, p],
+        77..=78 => vec![p, p],
+        79..=80 => (0..naddr).collect(),
+        81..=86 => vec![],
+        87..=92 => match alt { Some(x) if x != p => vec![x], _ => if other != p { vec![other] } else { vec![] } },
+        93..=95 => (0..naddr).filter(|x| *x != p).collect(),
         _ => if other != p { vec![other] } else { vec![] },
     }
 }
@@ -259,6 +267,22 @@ fn classify(s: &Snap, call: &Call, admin: Option<usize>, nroles: usize, renounce
             } else if s.has[*r][*acc].is_some() { extra.push("grant-to-holder".into()); }
             else if s.count[*r] == 0 { extra.push("grant-first-member".into()); }
         }
+        Call::RenounceRole(r, ca, au) => {
+            let holds = s.has[*r][*ca].is_some();
+            extra.push(format!("renounce_role-{}-{}", if holds { "by-holder" } else { "by-nonholder" },
+                               if au.contains(ca) { "signed" } else if au.is_empty() { "unsigned" } else { "signed-by-another" }));
+        }
+        Call::AcceptAdmin(au) => {
+            match s.pending { Some((p, _)) => extra.push(format!("accept_admin-{}", if au.contains(&p) { "by-pending" } else { "by-other" })), None => extra.push("accept_admin-nothing-pending".into()) }
+        }
+        Call::TransferAdmin(_, lu, au) => {
+            let signed = admin.map(|a| au.contains(&a)).unwrap_or(false);
+            extra.push(format!("{}-{}", if *lu == 0 { "cancel_admin_transfer" } else { "transfer_admin" }, if signed { "signed" } else { "unsigned" }));
+        }
+        Call::RenounceAdmin(au) => {
+            let signed = admin.map(|a| au.contains(&a)).unwrap_or(false);
+            extra.push(format!("renounce_admin-{}-{}", if signed { "signed" } else { "unsigned" }, if s.pending.is_some() { "while-pending" } else { "nothing-pending" }));
+        }
         Call::BurnFrom(sp, from, tok, _) if sp != from => { extra.push(if s.approved[*tok as usize] == Some(*sp) { "burn_from-approved-spender".into() } else { "burn_from-unapproved-spender".into() }); }
         Call::AdminRestricted(_) | Call::SetRoleAdmin(..) if renounced => extra.push("admin-entry-after-renounce".into()),
         Call::SetRoleAdmin(r, ar, _) => { if r == ar { extra.push("set-role-admin-self".into()); } else if s.role_admin[*ar] == Some(*r) { extra.push("set-role-admin-cycle".into()); } }
@@ -272,19 +296,21 @@ fn random_ac(out: &mut Out, rng: &mut Rng, len: usize, desc: &str) {
     let nroles = 4usize;
     let names: V<S> = ["minter", "burner", "manager", "auditor"].iter().map(|s| s.to_string()).collect();
     // host configurations: small max_entry_ttl; the test host's defaults; everything long-lived with min_temp_entry_ttl 16
-    let (min_ttl, max_ttl, min_persist) = match rng.below(10) { 0..=2 => (1u32, 5000u32, 4096u32), 3..=6 => (1, 6_312_000, 4096), _ => (16, 8_000_000, 7_999_999) };
-    let mut w = World::new_cfg(naddr, &names, 4, 100, min_ttl, max_ttl, min_persist);
+    // min_temp_entry_ttl = 1 (the admin hand-over inside these traces is judged by the C07 clauses, which prescribe it)
+    let (min_ttl, max_ttl, min_persist) = match rng.below(10) { 0..=2 => (1u32, 5000u32, 4096u32), 3..=6 => (1, 6_312_000, 4096), _ => (1, 8_000_000, 7_999_999) };
+    let admin0 = if rng.chance(1, 2) { 0 } else { rng.below(naddr as u64) as usize };
+    let mut w = World::new_adm(naddr, &names, 4, 100, min_ttl, max_ttl, min_persist, admin0);
     let mut renounced = false;
     if rng.chance(1, 2) {
         // scaffold: a chain r0 <- r1 <- r2 (<- r0: cycle) of admin roles, one distinct holder per level
         let mut rs: V<usize> = (0..nroles).collect();
         for i in (1..rs.len()).rev() { let j = rng.below(i as u64 + 1) as usize; rs.swap(i, j); }
         let depth = 2 + rng.below(2) as usize;
-        for i in 0..depth { w.exec(out, &Call::SetRoleAdmin(rs[i], rs[i + 1], vec![0])); }
-        if rng.chance(1, 2) { w.exec(out, &Call::SetRoleAdmin(rs[depth], rs[0], vec![0])); }
-        let mut who: V<usize> = (1..naddr).collect();
+        for i in 0..depth { w.exec(out, &Call::SetRoleAdmin(rs[i], rs[i + 1], vec![admin0])); }
+        if rng.chance(1, 2) { w.exec(out, &Call::SetRoleAdmin(rs[depth], rs[0], vec![admin0])); }
+        let mut who: V<usize> = (0..naddr).filter(|x| *x != admin0).collect();
         for i in (1..who.len()).rev() { let j = rng.below(i as u64 + 1) as usize; who.swap(i, j); }
-        for i in 0..=depth { w.exec(out, &Call::Grant(who[i], rs[i], 0, vec![0])); }
+        for i in 0..=depth { w.exec(out, &Call::Grant(who[i], rs[i], admin0, vec![admin0])); }
     }
     for step in 0..len {
         if w.dead { break; }
@@ -333,12 +359,12 @@ fn random_ac(out: &mut Out, rng: &mut Rng, len: usize, desc: &str) {
             let ar = match rng.below(6) { 0 => rnd_r, _ => rng.below(nroles as u64) as usize };
             let au = match admin { Some(a) => pick_auths(rng, a, Some(rnd_a), naddr), None => vec![rnd_a] };
             Call::SetRoleAdmin(rnd_r, ar, au)
-        } else if x < 64 {
+        } else if x < 65 {
             let lu = match rng.below(6) { 0 => 0, 1 => w.now - 1, 2 => w.now, _ => w.now + 1 + rng.below(30) as u32 };
             let new = if lu == 0 { s.pending.map(|p| p.0).unwrap_or(rnd_a) } else { rnd_a };
             let au = match admin { Some(a) => pick_auths(rng, a, Some(rnd_a), naddr), None => vec![rnd_a] };
             Call::TransferAdmin(new, lu, au)
-        } else if x < 68 {
+        } else if x < 69 {
             let p = s.pending.map(|p| p.0).unwrap_or(rnd_a);
             Call::AcceptAdmin(pick_auths(rng, p, admin, naddr))
         } else if x < 70 {
@@ -422,9 +448,10 @@ fn scripted_ac_cfg(out: &mut Out, names: &[&str], naddr: usize, cfg: (u32, u32, 
 enum ACallK { Ac(Call), Allow(usize, usize, V<usize>), Disallow(usize, usize, V<usize>) }
 
 /// examples/fungible-allowlist driven through dynamic invocation (AccessControl entry points + allow/disallow)
-struct AWorld { e: Env, cid: Address, addrs: V<Address>, roles: V<Symbol>, now: u32, start: u32, min_ttl: u32, max_ttl: u32, items: V<S>, obs0: S, dead: bool }
+struct AWorld { e: Env, cid: Address, addrs: V<Address>, roles: V<Symbol>, now: u32, start: u32, min_ttl: u32, max_ttl: u32, items: V<S>, obs0: S, dead: bool, admin0: usize, manager0: usize }
 impl AWorld {
-    fn new(naddr: usize, role_names: &[&str], start: u32, min_ttl: u32, max_ttl: u32, min_persist: u32) -> AWorld {
+    fn new(naddr: usize, role_names: &[&str], start: u32, min_ttl: u32, max_ttl: u32, min_persist: u32) -> AWorld { AWorld::new_with(naddr, role_names, start, min_ttl, max_ttl, min_persist, 0, 1) }
+    fn new_with(naddr: usize, role_names: &[&str], start: u32, min_ttl: u32, max_ttl: u32, min_persist: u32, admin0: usize, manager0: usize) -> AWorld {
         let e = Env::default();
         e.cost_estimate().budget().reset_unlimited();
         e.cost_estimate().disable_resource_limits();
@@ -434,13 +461,13 @@ impl AWorld {
         // admin = account 0, manager = account 1
         let reg = std::panic::catch_unwind(std::panic::AssertUnwindSafe(|| e.register(
             al_ex::ExampleContract,
-            (String::from_str(&e, "n"), String::from_str(&e, "s"), addrs[0].clone(), addrs[1].clone(), 1000i128),
+            (String::from_str(&e, "n"), String::from_str(&e, "s"), addrs[admin0].clone(), addrs[manager0].clone(), 1000i128),
         )));
         match reg {
-            Ok(cid) => { let mut w = AWorld { e, cid, addrs, roles, now: start, start, min_ttl, max_ttl, items: vec![], obs0: S::new(), dead: false }; w.obs0 = w.obs(); w }
+            Ok(cid) => { let mut w = AWorld { e, cid, addrs, roles, now: start, start, min_ttl, max_ttl, items: vec![], obs0: S::new(), dead: false, admin0, manager0 }; w.obs0 = w.obs(); w }
             Err(_) => { let e = Env::default(); let cid = Address::generate(&e);
                         AWorld { e, cid, addrs: vec![], roles: vec![], now: start, start, min_ttl, max_ttl, items: vec![],
-                                 obs0: "((Build_aobs (Some 998%N) None [] [998%N] [] []), [])".to_string(), dead: true } }
+                                 obs0: "((Build_aobs (Some 998%N) None [] [998%N] [] []), [])".to_string(), dead: true, admin0, manager0 } }
         }
     }
     fn idx(&self, a: &Address) -> usize { self.addrs.iter().position(|x| x == a).unwrap_or(999) }
@@ -450,8 +477,8 @@ impl AWorld {
         match self.e.try_invoke_contract::<T, soroban_sdk::Error>(&self.cid, &Symbol::new(&self.e, name), args) { Ok(Ok(v)) => Some(v), _ => None }
     }
     fn header(&self, naddr: usize, nroles: usize) -> S {
-        format!("(Build_alheader (Build_aheader {} {} {} (Some {}) {} {} {} (Build_universe {} {} [])) {} {})", self.min_ttl, self.max_ttl, self.start, n(0), n(MAX_ROLES as u64), n(0), n(1),
-                list(&(0..naddr).map(|i| n(i as u64)).collect::<V<_>>()), list(&(0..nroles).map(|i| n(i as u64)).collect::<V<_>>()), n(0), n(1))
+        format!("(Build_alheader (Build_aheader {} {} {} (Some {}) {} {} {} (Build_universe {} {} [])) {} {})", self.min_ttl, self.max_ttl, self.start, n(self.admin0 as u64), n(MAX_ROLES as u64), n(0), n(1),
+                list(&(0..naddr).map(|i| n(i as u64)).collect::<V<_>>()), list(&(0..nroles).map(|i| n(i as u64)).collect::<V<_>>()), n(0), n(self.manager0 as u64))
     }
     fn snap(&self) -> (Snap, V<Option<bool>>) {
         let e = &self.e;
@@ -506,8 +533,14 @@ impl AWorld {
             ACallK::Ac(Call::RenounceAdmin(au)) => (format!("ACall (RenounceAdmin {})", auths_s(au)), self.run("renounce_admin", ().into_val(&e), au), "al_renounce_admin"),
             ACallK::Ac(Call::Advance(k)) => { self.now += *k; let nw = self.now; e.ledger().with_mut(|l| l.sequence_number = nw); if *k >= 17281 { out.label("advance-long/ok"); } (format!("ACall (Access.Advance {})", n(*k as u64)), true, "al_advance") }
             ACallK::Ac(_) => return false,
-            ACallK::Allow(u, op, au) => (format!("AllowUser {} {} {}", n(*u as u64), n(*op as u64), auths_s(au)), self.run("allow_user", (a(*u), a(*op)).into_val(&e), au), "allow_user"),
-            ACallK::Disallow(u, op, au) => (format!("DisallowUser {} {} {}", n(*u as u64), n(*op as u64), auths_s(au)), self.run("disallow_user", (a(*u), a(*op)).into_val(&e), au), "disallow_user"),
+            ACallK::Allow(u, op, au) | ACallK::Disallow(u, op, au) => {
+                let allow = matches!(c, ACallK::Allow(..));
+                let is_mgr = self.call::<Option<u32>>("has_role", (a(*op), r(0)).into_val(&e)).flatten().is_some();
+                let ok = self.run(if allow { "allow_user" } else { "disallow_user" }, (a(*u), a(*op)).into_val(&e), au);
+                out.label(&format!("{}-by-{}-{}/{}", if allow { "allow" } else { "disallow" }, if is_mgr { "manager" } else if *op == self.admin0 { "admin-nonmanager" } else { "nonmanager" },
+                                   if au.contains(op) { "signed" } else { "unsigned" }, if ok { "ok" } else { "fail" }));
+                (format!("{} {} {} {}", if allow { "AllowUser" } else { "DisallowUser" }, n(*u as u64), n(*op as u64), auths_s(au)), ok, if allow { "allow_user" } else { "disallow_user" })
+            }
         };
         self.e.mock_auths(&[]);
         out.case(&format!("{}/{}", label, if ok { "ok" } else { "fail" }), &format!("{} #{}", text, self.items.len()));
@@ -526,8 +559,10 @@ const AL_ROLES: [&str; 3] = ["manager", "auditor", "ops"];
 
 fn random_allow(out: &mut Out, rng: &mut Rng, len: usize, desc: &str) {
     let naddr = 5usize; let nroles = 3usize;
-    let (min_ttl, max_ttl, min_persist) = match rng.below(3) { 0 => (1u32, 5000u32, 4096u32), 1 => (1, 6_312_000, 4096), _ => (16, 8_000_000, 7_999_999) };
-    let mut w = AWorld::new(naddr, &AL_ROLES, 100, min_ttl, max_ttl, min_persist);
+    let (min_ttl, max_ttl, min_persist) = match rng.below(3) { 0 => (1u32, 5000u32, 4096u32), 1 => (1, 6_312_000, 4096), _ => (1, 8_000_000, 7_999_999) };
+    // the constructor's admin and manager vary, sometimes the same account
+    let admin0 = rng.below(naddr as u64) as usize; let manager0 = if rng.chance(1, 4) { admin0 } else { rng.below(naddr as u64) as usize };
+    let mut w = AWorld::new_with(naddr, &AL_ROLES, 100, min_ttl, max_ttl, min_persist, admin0, manager0);
     for _ in 0..len {
         if w.dead { break; }
         let (s, _) = w.snap();
@@ -573,7 +608,7 @@ fn random_allow(out: &mut Out, rng: &mut Rng, len: usize, desc: &str) {
 #[derive(Clone, Debug)]
 enum OCall { Offer(usize, u32, V<usize>), Accept(V<usize>), Renounce(V<usize>), Guarded(V<usize>), Advance(u32) }
 
-struct OWorld { e: Env, cid: Address, addrs: V<Address>, now: u32, start: u32, max_ttl: u32, items: V<S>, dead: bool }
+struct OWorld { e: Env, cid: Address, addrs: V<Address>, now: u32, start: u32, max_ttl: u32, items: V<S>, dead: bool, renounced: bool }
 impl OWorld {
     fn new_cfg(naddr: usize, start: u32, max_ttl: u32, min_persist: u32) -> OWorld {
         let e = Env::default();
@@ -582,8 +617,8 @@ impl OWorld {
         e.ledger().with_mut(|l| { l.sequence_number = start; l.min_temp_entry_ttl = 1; l.max_entry_ttl = max_ttl; l.min_persistent_entry_ttl = min_persist; });
         let addrs: V<Address> = (0..naddr).map(|_| Address::generate(&e)).collect();
         match std::panic::catch_unwind(std::panic::AssertUnwindSafe(|| e.register(ownable_ex::ExampleContract, (addrs[0].clone(),)))) {
-            Ok(cid) => OWorld { e, cid, addrs, now: start, start, max_ttl, items: vec![], dead: false },
-            Err(_) => { let e = Env::default(); let cid = Address::generate(&e); OWorld { e, cid, addrs: vec![], now: start, start, max_ttl, items: vec![], dead: true } }
+            Ok(cid) => OWorld { e, cid, addrs, now: start, start, max_ttl, items: vec![], dead: false, renounced: false },
+            Err(_) => { let e = Env::default(); let cid = Address::generate(&e); OWorld { e, cid, addrs: vec![], now: start, start, max_ttl, items: vec![], dead: true, renounced: false } }
         }
     }
     fn idx(&self, a: &Address) -> usize { self.addrs.iter().position(|x| x == a).unwrap_or(999) }
@@ -623,6 +658,9 @@ impl OWorld {
         out.case(&format!("{}/{}", label, if res.is_some() { "ok" } else { "fail" }), &format!("{} #{}", text, self.items.len()));
         let ob = pair(&on(self.holder().map(|x| x as u64)), &opt(self.pending().map(|(a, l)| pair(&n(a as u64), &z(l as i128)))));
         self.items.push(format!("({}, {}, {})", text, outs, ob));
+        if self.renounced && matches!(c, OCall::Guarded(_)) { out.label(if res.is_some() { "only_owner-after-renounce/ok" } else { "only_owner-after-renounce/fail" }); }
+        if res.is_some() && matches!(c, OCall::Renounce(_)) { self.renounced = true; }
+        if let OCall::Advance(k) = c { if *k >= 17281 { out.label("advance-long/ok"); } }
         res.is_some()
     }
     fn flush(mut self, out: &mut Out, desc: &str) {
@@ -637,7 +675,6 @@ fn random_own(out: &mut Out, rng: &mut Rng, len: usize, desc: &str) {
     let naddr = 4usize;
     let (max_ttl, min_persist) = match rng.below(3) { 0 => (5000u32, 4096u32), 1 => (6_312_000, 4096), _ => (8_000_000, 7_999_999) };
     let mut w = OWorld::new_cfg(naddr, 100, max_ttl, min_persist);
-    let mut renounced = false;
     for step in 0..len {
         let h = w.holder(); let p = w.pending().map(|x| x.0);
         let rnd = rng.below(naddr as u64) as usize;
@@ -648,10 +685,7 @@ fn random_own(out: &mut Out, rng: &mut Rng, len: usize, desc: &str) {
             else if x < 75 { OCall::Accept(signer(rng, p.or(Some(rnd)))) }
             else if x < 85 { OCall::Advance(if rng.chance(1, 3) { *rng.pick(&[20u32, 100, 17281, 20000, 600000, 4_000_000]) } else { rng.below(15) as u32 }) }
             else { OCall::Renounce(if p.is_some() || step * 2 > len { signer(rng, h) } else { signer(rng, None) }) };
-        let is_guard = matches!(call, OCall::Guarded(_));
-        let ok = w.exec(out, &call);
-        if renounced && is_guard { out.label(if ok { "only_owner-after-renounce/ok" } else { "only_owner-after-renounce/fail" }); }
-        if ok && matches!(call, OCall::Renounce(_)) { renounced = true; }
+        w.exec(out, &call);
     }
     w.flush(out, desc);
 }
@@ -690,13 +724,26 @@ fn main() {
         Mint(4, 1, 2, vec![2]), Approve(4, 3, 1, 4100, vec![4]), Revoke(4, 1, 1, vec![1]), BurnFrom(3, 4, 1, vec![3]), Revoke(3, 1, 1, vec![1]), Mint(4, 0, 2, vec![2]), Approve(4, 3, 0, 4100, vec![4]), BurnFrom(3, 4, 0, vec![3]), Grant(4, 1, 1, vec![1]), BurnFrom(3, 4, 0, vec![3]), BurnFrom(4, 4, 0, vec![4])], "corpus/admin-handover-and-macros");
     // persistence: roles, role admins, admin, enumeration, token owners survive arbitrarily long gaps without being touched
     // (only the pending admin offer and a token approval are allowed to lapse); two host configurations
-    for cfg in [(1u32, 6_312_000u32, 4096u32), (16, 8_000_000, 7_999_999)] {
+    for cfg in [(1u32, 6_312_000u32, 4096u32), (1, 8_000_000, 7_999_999)] {
         scripted_ac_cfg(&mut out, &std4, 5, cfg, &[
             SetRoleAdmin(0, 2, vec![0]), SetRoleAdmin(2, 3, vec![0]), Grant(1, 2, 0, vec![0]), Grant(2, 0, 1, vec![1]), Grant(3, 0, 1, vec![1]), Grant(4, 0, 1, vec![1]), Grant(2, 1, 0, vec![0]),
             Revoke(2, 0, 1, vec![1]), Mint(2, 0, 3, vec![3]), Approve(2, 4, 0, 2_000_000, vec![2]), TransferAdmin(1, 1_000_000, vec![0]),
             Advance(20), Advance(100), Advance(17281), Advance(20000), Advance(600_000), AdminRestricted(vec![0]), Grant(4, 2, 0, vec![0]), Advance(1_555_201),
             AcceptAdmin(vec![1]), Advance(4_000_000), AdminRestricted(vec![0]), Grant(2, 0, 1, vec![1]), Mint(3, 1, 3, vec![3]), MultiRoleAction(2, vec![2]), BurnFrom(4, 2, 0, vec![4]), Burn(2, 0, vec![2]),
             RenounceRole(2, 4, vec![4]), RenounceAdmin(vec![0]), Advance(4_000_000), AdminRestricted(vec![0]), Grant(0, 0, 1, vec![1]), Revoke(3, 0, 1, vec![1]), Advance(4_000_000), Grant(3, 0, 1, vec![1])], "corpus/long-gaps");
+    }
+    // the hand-over interleaved with role traffic; take-over attempts; every wrong signer of renounce_role / revoke
+    scripted_ac(&mut out, &std4, 5, &[
+        SetRoleAdmin(0, 2, vec![0]), SetRoleAdmin(2, 3, vec![0]), Grant(1, 3, 0, vec![0]), Grant(2, 2, 1, vec![1]), Grant(3, 0, 2, vec![2]),
+        AcceptAdmin(vec![4]), TransferAdmin(4, 300, vec![4]), AcceptAdmin(vec![4]), TransferAdmin(4, 300, vec![0]), Grant(4, 1, 0, vec![0]), AcceptAdmin(vec![3]), AcceptAdmin(vec![]),
+        Revoke(3, 0, 1, vec![1]), Revoke(3, 0, 4, vec![4]), RenounceRole(0, 3, vec![]), RenounceRole(0, 3, vec![0]), RenounceRole(0, 4, vec![4]), TransferAdmin(1, 0, vec![0]), RenounceAdmin(vec![0]),
+        Advance(100), AcceptAdmin(vec![4, 0]), AdminRestricted(vec![0]), AdminRestricted(vec![4]), Grant(0, 1, 0, vec![0]), Grant(0, 1, 4, vec![4]), Revoke(3, 0, 2, vec![2]), TransferAdmin(0, 250, vec![4]), Advance(200), AcceptAdmin(vec![0]),
+        Revoke(2, 2, 0, vec![0]), Revoke(2, 2, 1, vec![]), Revoke(2, 2, 1, vec![1])], "corpus/hand-over-interleaved");
+    {
+        let mut w = OWorld::new_cfg(4, 100, 5000, 4096);
+        for c in [OCall::Accept(vec![3]), OCall::Guarded(vec![3]), OCall::Offer(1, 200, vec![3]), OCall::Accept(vec![1]), OCall::Offer(1, 200, vec![0]), OCall::Accept(vec![2]), OCall::Accept(vec![]), OCall::Guarded(vec![1]),
+                  OCall::Renounce(vec![0]), OCall::Renounce(vec![1]), OCall::Accept(vec![1, 2]), OCall::Guarded(vec![0]), OCall::Guarded(vec![1]), OCall::Accept(vec![1]), OCall::Renounce(vec![0]), OCall::Renounce(vec![1]), OCall::Guarded(vec![1]), OCall::Offer(2, 300, vec![1])] { w.exec(&mut out, &c); }
+        w.flush(&mut out, "corpus/own-take-over-attempts");
     }
     {
         let mut w = OWorld::new_cfg(4, 100, 6_312_000, 4096);
@@ -706,13 +753,24 @@ fn main() {
     }
     // fungible-allowlist: allow / disallow only by an authorised holder of "manager" (granted by the constructor through
     // grant_role_no_auth with symbol_short!), flags and the role survive long gaps
-    for cfg in [(1u32, 5000u32, 4096u32), (1, 6_312_000, 4096), (16, 8_000_000, 7_999_999)] {
+    for cfg in [(1u32, 5000u32, 4096u32), (1, 6_312_000, 4096), (1, 8_000_000, 7_999_999)] {
         let mut w = AWorld::new(5, &AL_ROLES, 100, cfg.0, cfg.1, cfg.2);
         for c in [ACallK::Allow(2, 0, vec![0]), ACallK::Allow(2, 1, vec![]), ACallK::Allow(2, 1, vec![0]), ACallK::Allow(2, 1, vec![1]), ACallK::Allow(2, 1, vec![1]), ACallK::Allow(3, 1, vec![1]),
                   ACallK::Disallow(3, 2, vec![2]), ACallK::Disallow(3, 1, vec![1]), ACallK::Disallow(3, 1, vec![1]), ACallK::Ac(Advance(17281)), ACallK::Ac(Advance(4_000_000)),
                   ACallK::Allow(4, 1, vec![1]), ACallK::Ac(Grant(3, 0, 0, vec![0])), ACallK::Allow(3, 3, vec![3]), ACallK::Ac(Revoke(1, 0, 0, vec![0])), ACallK::Disallow(2, 1, vec![1]), ACallK::Disallow(2, 3, vec![3]),
                   ACallK::Ac(Advance(4_000_000)), ACallK::Ac(RenounceRole(0, 3, vec![3])), ACallK::Allow(2, 3, vec![3]), ACallK::Ac(Advance(1_555_201)), ACallK::Disallow(0, 0, vec![0])] { w.exec(&mut out, &c); }
         w.flush(&mut out, "corpus/allowlist", 5, 3);
+    }
+    {
+        // the constructor's admin is also the manager (account 2); another trace with admin 3, manager 4
+        let mut w = AWorld::new_with(5, &AL_ROLES, 100, 1, 5000, 4096, 2, 2);
+        for c in [ACallK::Allow(0, 2, vec![2]), ACallK::Allow(1, 0, vec![0]), ACallK::Disallow(2, 2, vec![2]), ACallK::Ac(Revoke(2, 0, 2, vec![2])), ACallK::Allow(1, 2, vec![2]),
+                  ACallK::Ac(Grant(1, 0, 2, vec![2])), ACallK::Allow(1, 1, vec![1]), ACallK::Ac(SetRoleAdmin(0, 1, vec![2])), ACallK::Ac(RenounceRole(0, 1, vec![1])), ACallK::Disallow(1, 1, vec![1]),
+                  ACallK::Ac(TransferAdmin(3, 150, vec![2])), ACallK::Ac(AcceptAdmin(vec![3])), ACallK::Ac(Grant(4, 0, 3, vec![3])), ACallK::Allow(3, 4, vec![4]), ACallK::Ac(RenounceAdmin(vec![3])), ACallK::Disallow(3, 4, vec![4])] { w.exec(&mut out, &c); }
+        w.flush(&mut out, "corpus/allowlist-admin-is-manager", 5, 3);
+        let mut w = AWorld::new_with(5, &AL_ROLES, 100, 1, 6_312_000, 4096, 3, 4);
+        for c in [ACallK::Allow(0, 4, vec![4]), ACallK::Allow(0, 3, vec![3]), ACallK::Disallow(3, 4, vec![]), ACallK::Disallow(3, 4, vec![3]), ACallK::Disallow(3, 4, vec![4]), ACallK::Ac(Advance(4_000_000)), ACallK::Allow(3, 4, vec![4])] { w.exec(&mut out, &c); }
+        w.flush(&mut out, "corpus/allowlist-other-accounts", 5, 3);
     }
     let nal = (if thorough { 400 } else { 40 }) * out.cfg.scale as usize;
     for i in 0..nal {
